@@ -830,6 +830,8 @@ def _softmax(func, args, kwargs):
 @handles("argsort", "sort")
 def _argsort(func, args, kwargs):
     a = args[0]
+    if a.dtype.is_floating_point and func_name(func) == "argsort":
+        return _argsort_float(func, args, kwargs)
     if a.dtype.is_floating_point or a.dtype == torch.bool or func_name(func) == "sort":
         raise Unsupported("argsort/sort on symbolic values")
     # integer tensor (e.g. a random permutation): decide every element (forks over the feasible values), then sort concretely
@@ -839,6 +841,30 @@ def _argsort(func, args, kwargs):
         t = p[idx]
         vals[idx] = int(num(t)) if is_num(t) else decide_int(t, -64, 64)
     return torch.argsort(torch.from_numpy(vals), *args[1:], **kwargs)
+
+
+def _argsort_float(func, args, kwargs):
+    """argsort of a float tensor along the last axis.  torch's sort is not stable: among tied elements the order is unspecified,
+    so position 0 is a NONDETERMINISTIC choice among the extremal elements (every element that may be extremal is explored, under
+    the assumption that it is); the remaining positions follow in index order (only position 0 is used by nflows)."""
+    a = args[0]
+    dim = getarg(args, kwargs, 1, "dim", -1)
+    desc = getarg(args, kwargs, 2, "descending", False)
+    p = P(a)
+    if norm_dim(dim, p.ndim) != p.ndim - 1:
+        raise Unsupported("argsort along a non-last axis")
+    out = np.empty(p.shape, dtype=np.int64)
+    ctx = C()
+    for idx in np.ndindex(*p.shape[:-1]):
+        vals = [toreal(t) for t in p[idx]]
+        n = len(vals)
+        opts = []
+        for i in range(n):
+            cond = z3.And([(vals[i] >= vals[j]) if desc else (vals[i] <= vals[j]) for j in range(n) if j != i]) if n > 1 else TRUE
+            opts.append((i, cond))
+        first = ctx.decide(opts)
+        out[idx] = [first] + [i for i in range(n) if i != first]
+    return torch.from_numpy(out)
 
 
 @handles("glu")
